@@ -38,13 +38,22 @@ func drawLen(t *rapid.T, minN int, boundaries []int) int {
 	case k < 85:
 		return rapid.IntRange(minN, max(minN, maxSmall)).Draw(t, "n")
 	case k < 99:
-		return rapid.IntRange(max(minN, maxSmall), 100000).Draw(t, "n")
+		return uniformInt(t, max(minN, maxSmall), 100000, "n")
 	default:
 		if thorough() {
-			return rapid.IntRange(100000, 1000000).Draw(t, "n")
+			return uniformInt(t, 100000, 1000000, "n")
 		}
-		return rapid.IntRange(100000, 300000).Draw(t, "n")
+		return uniformInt(t, 100000, 300000, "n")
 	}
+}
+
+// uniformInt draws an integer uniformly from [lo, hi]: rapid's own integer generators favour small magnitudes, which
+// starves the large-n classes; the draw is a rapid seed pushed through the harness PRNG (still a pure function of rapid's stream).
+func uniformInt(t *rapid.T, lo, hi int, label string) int {
+	if hi <= lo {
+		return lo
+	}
+	return lo + gen.NewRng(rapid.Uint64().Draw(t, label)).Intn(hi-lo+1)
 }
 
 func cmpPQ(key, what string, gotP, gotQ, wantP, wantQ float64, recName string) error {
@@ -191,6 +200,13 @@ func TestC01Sweep(t *testing.T) {
 		}
 	}
 	if mode != "huge" {
+		// block frequency with very many blocks (shapes a = N/2 up to 250000: the incomplete gamma needs thousands of terms)
+		for i, n := range []int{100000, 1000000} {
+			for _, m := range []int{2, 3, 4, 8, 10, 16, 25} {
+				cases = append(cases, statCase{Test: "block", M: m, Seq: gen.Seq{Family: "uniform", N: n, Seed: uint64(50 + i*10 + m)}},
+					statCase{Test: "block", M: m, Seq: gen.Seq{Family: "biased", N: n, Seed: uint64(70 + i*10 + m), F: 0.5005}})
+			}
+		}
 		// byte fast paths with large pattern counts (constant / heavily biased / long inputs)
 		for _, q := range []gen.Seq{{Family: "constant", N: 1000000, A: 1}, {Family: "biased", N: 1000000, Seed: 3, F: 0.9}, {Family: "biased", N: 1000000, Seed: 4, F: 0.05},
 			{Family: "periodic", N: 1000000, Bits: "00010001"}, {Family: "uniform", N: 4800000, Seed: 5}} {
